@@ -110,6 +110,40 @@ def parseItem (d : D) (it : String) : Option (D × Key) :=
     | _, _ => none
   | _ => none
 
+/-! #### `repairp`: `repair_hotcold_packs` on prepared stores and index files -/
+
+/-- `t<n>` / `d<n>`: pack label `n` listed with a tree / data blob first -/
+def parseIdxPack (tok : String) : Option IdxPack :=
+  match tok.toList with
+  | 't' :: n => if (String.ofList n).toNat?.isSome then some ⟨n, true⟩ else none
+  | 'd' :: n => if (String.ofList n).toNat?.isSome then some ⟨n, false⟩ else none
+  | _ => none
+
+def parseIdxList (s : String) : Option (List IdxPack) :=
+  if s = "-" then some [] else (s.splitOn "+").mapM parseIdxPack
+
+def parseIdxFile (s : String) : Option IndexFileM :=
+  match s.splitOn "|" with
+  | [a, b] =>
+    match parseIdxList a, parseIdxList b with
+    | some a, some b => some { packs := a, packsToDelete := b }
+    | _, _ => none
+  | _ => none
+
+def parsePackItem (d : D) (it : String) : Option (D × Name) :=
+  match it.splitOn ":" with
+  | [n, c, h] =>
+    if n.toNat?.isNone then none else
+    let put (b : BeL) (tok : String) : Option BeL :=
+      if tok = "~" then some b else (dataOf tok).map (fun x => bput b (.pack, n.toList) x)
+    match put d.cold c, put d.hot h with
+    | some c', some h' => some ({ hot := h', cold := c' }, n.toList)
+    | _, _ => none
+  | _ => none
+
+def packStr (b : BeL) : String :=
+  joinOr (b.filterMap (fun e => if e.1.1 = .pack then some (String.ofList e.1.2 ++ ":" ++ digest e.2) else none))
+
 def handle : List String → String
   | ["hist", steps] =>
     match runSteps { hot := [], cold := [] } (steps.splitOn ";") [] with
@@ -127,7 +161,24 @@ def handle : List String → String
       let d' := keys.foldl repairKeyD d
       "ok;hot[" ++ storeStr d'.hot ++ "]cold[" ++ storeStr d'.cold ++ "]"
     | none => "bad-op"
+  | ["repairp", index, packs] =>
+    let rec loadP (d : D) (names : List Name) : List String → Option (D × List Name)
+      | [] => some (d, names.reverse)
+      | it :: rest =>
+        match parsePackItem d it with
+        | some (d', n) => if names.contains n then none else loadP d' (n :: names) rest
+        | none => none
+    match (index.splitOn ";").mapM parseIdxFile, loadP { hot := [], cold := [] } [] (packs.splitOn ";") with
+    | some idx, some (d, names) =>
+      -- `listed` = the pack ids either store lists
+      let listed := names.filter (fun n => (bget d.hot (.pack, n)).isSome || (bget d.cold (.pack, n)).isSome)
+      let d' := (packKeys idx listed).foldl repairKeyD d
+      "ok;hot[" ++ packStr d'.hot ++ "]cold[" ++ packStr d'.cold ++ "]"
+    | _, _ => "bad-op"
   | ["repo", seed] => if seed.toNat?.isSome then "ok" else "bad-op"
+  | ["repo-hist", steps, seed] =>
+    if seed.toNat?.isSome ∧ (steps.splitOn ",").all (fun s => s.length = 1 ∧ s.toList.all (fun c => "bfFpmkixX".toList.contains c)) then "ok"
+    else "bad-op"
   | ["repo-read-data", seed] => if seed.toNat?.isSome then "ok" else "bad-op"
   | _ => "bad-op"
 
